@@ -38,7 +38,12 @@
 // TODO: Other sizes? Does anyone need more than 5 slots?
 
 use std::cell::UnsafeCell;
+#[cfg(not(sighook_verif))]
 use std::sync::atomic::{AtomicU16, Ordering};
+#[cfg(sighook_verif)]
+use signal_hook_registry::verif::{self, AtomicU16};
+#[cfg(sighook_verif)]
+use std::sync::atomic::Ordering;
 
 const SLOTS: usize = 5;
 const BITS: u16 = 3;
@@ -135,6 +140,8 @@ impl<T> Channel<T> {
     /// If the value doesn't fit, it is silently dropped. Never blocks.
     pub fn send(&self, val: T) {
         if let Some(empty_idx) = dequeue(&self.empty) {
+            #[cfg(sighook_verif)]
+            verif::point(verif::Op::CellWrite, self as *const _ as usize, empty_idx as usize);
             unsafe { *self.storage[empty_idx as usize - 1].get() = Some(val) };
             enqueue(&self.full, empty_idx);
         }
@@ -145,12 +152,25 @@ impl<T> Channel<T> {
     /// Or returns `None` if the channel is empty. Never blocks.
     pub fn recv(&self) -> Option<T> {
         dequeue(&self.full).map(|idx| {
+            #[cfg(sighook_verif)]
+            verif::point(verif::Op::CellTake, self as *const _ as usize, idx as usize);
             let result = unsafe { &mut *self.storage[idx as usize - 1].get() }
                 .take()
                 .expect("Full slot with nothing in it");
             enqueue(&self.empty, idx);
             result
         })
+    }
+}
+
+#[cfg(sighook_verif)]
+impl<T> Channel<T> {
+    /// Addresses of the `empty` and `full` queue words (for a verification harness).
+    pub fn verif_addrs(&self) -> [usize; 2] {
+        [
+            &self.empty as *const _ as usize,
+            &self.full as *const _ as usize,
+        ]
     }
 }
 
